@@ -191,6 +191,7 @@ class ColorEngine(VectorEngine):
     trace = ("Trace_Colors", "Trace_Colors.cfg")
     kind = None                    # "c31" | "c32" | "c33"
     chunk = 3000                   # events per trace-validation run
+    max_rejects = 4                # rejected events per chunk before the rest of the chunk is left unexamined
     annotate_cfg = None            # MC config that reads random inputs from IOEnv.INPUTS and annotates them
 
     def strip(self, vec):
@@ -364,7 +365,7 @@ class ColorEngine(VectorEngine):
             out["rejected"].append((e, why.get(e["case"], "?")))
             todo = todo[i:]
             rejects += 1
-            if rejects >= 12:
+            if rejects >= self.max_rejects:
                 out["note"] = f"{name}: validation stopped after {rejects} rejections ({len(todo)} events not examined)"
                 break
         return out
@@ -377,8 +378,13 @@ class ColorEngine(VectorEngine):
         n = self.chunk
         tag = tag.replace("/", "_")
         chunks = [(events[k:k + n], f"{tag}.{k // n}") for k in range(0, len(events), n)]
-        with ThreadPoolExecutor(max_workers=4) as ex:
-            outs = list(ex.map(lambda c: self._validate_chunk(ctx, c[0], c[1]), chunks))
+        outs = []
+        with ThreadPoolExecutor(max_workers=3) as ex:
+            for g in range(0, len(chunks), 3):
+                outs += list(ex.map(lambda c: self._validate_chunk(ctx, c[0], c[1]), chunks[g:g + 3]))
+                if len(ctx.violations) + sum(len(o["rejected"]) for o in outs) >= 25 and g + 3 < len(chunks):
+                    ctx.notes.append(f"{tag}: validation stopped after 25 violations ({len(chunks) - g - 3} chunks not examined)")
+                    break
         for o in outs:
             ctx.cmds += o["cmds"][:1]
             for m in o["msgs"]:
@@ -474,8 +480,8 @@ class C31(ColorEngine):
     assumptions = ["channel read-backs are projected to fixed point (milli-units; alpha micro-units) by rounding the printed decimal",
                    "partner notations are proposed only when the reference conversion is exact in fixed point",
                    "a constructor call with out-of-range arguments may raise an error instead of clamping (not constrained)"]
-    mc_runs = {"quick": [("MC_Colors", "MC_Colors_C31_q.cfg", {"workers": 8})],
-               "thorough": [("MC_Colors", "MC_Colors_C31_t.cfg", {"workers": 8, "timeout": 1500})]}
+    mc_runs = {"quick": [("MC_Colors", "MC_Colors_C31_q.cfg", {"workers": 4})],
+               "thorough": [("MC_Colors", "MC_Colors_C31_t.cfg", {"workers": 4, "timeout": 1500})]}
     random_n = {"quick": 1500, "thorough": 20000}
     annotate_cfg = "MC_ColorsIn_C31.cfg"
 
@@ -494,8 +500,8 @@ class C32(ColorEngine):
             "non-trivial = the colour exists; distinct = distinct (colour, amount). Flow B: random in-range colours x random amounts.")
     assumptions = ["the undo laws are required only when the moved channel stays at least 1 milli-unit inside its range (nothing clamped); the boundary zone is skipped",
                    "channel read-backs are compared at milli-unit resolution (alpha: micro-units) with a tolerance of 2 units for the two roundings"]
-    mc_runs = {"quick": [("MC_Colors", "MC_Colors_C32_q.cfg", {"workers": 8})],
-               "thorough": [("MC_Colors", "MC_Colors_C32_t.cfg", {"workers": 8, "timeout": 1500})]}
+    mc_runs = {"quick": [("MC_Colors", "MC_Colors_C32_q.cfg", {"workers": 4})],
+               "thorough": [("MC_Colors", "MC_Colors_C32_t.cfg", {"workers": 4, "timeout": 1500})]}
     random_n = {"quick": 1000, "thorough": 15000}
 
     def random_inputs(self, ctx, n):
@@ -513,8 +519,8 @@ class C33(ColorEngine):
             "non-trivial = a colour was printed; distinct = distinct (constructor call, function, style). Flow B: random colours x random function x style.")
     assumptions = ["comparison to 0.016 of an 8-bit channel step (16 milli-units = twice the error bound of the fixed-point reference conversions) and 2e-6 in alpha, not to the full 10-digit output precision",
                    "hsl()/hsla() tokens whose saturation or lightness is outside 0-100% are not decoded (CSS would clip them; the property does not say how)"]
-    mc_runs = {"quick": [("MC_Colors", "MC_Colors_C33_q.cfg", {"workers": 8})],
-               "thorough": [("MC_Colors", "MC_Colors_C33_t.cfg", {"workers": 8, "timeout": 1500})]}
+    mc_runs = {"quick": [("MC_Colors", "MC_Colors_C33_q.cfg", {"workers": 4})],
+               "thorough": [("MC_Colors", "MC_Colors_C33_t.cfg", {"workers": 4, "timeout": 1500})]}
     random_n = {"quick": 1500, "thorough": 20000}
 
     def random_inputs(self, ctx, n):
